@@ -25,6 +25,22 @@
 (*   "perclause" each clause registers a handler that closes ALL clauses   *)
 (*               (a well-meant fix that puts every interpreter back as     *)
 (*               many times as there are clauses)                          *)
+(*                                                                         *)
+(* FENCES hold interpreters too: SETCHAN / SETHOOK ... WHEREEVAL s n args  *)
+(* parses its clause like a search (Get, ARGV of the clause), and the      *)
+(* fence evaluates the clause on THAT interpreter at every later SET.      *)
+(* HookKeeps: what happens to the clause's interpreter when SETCHAN        *)
+(* returns:                                                                *)
+(*   "shared"    as coded (hooks.go: `defer args.Close()`): the clause is  *)
+(*               closed - ARGV cleared, interpreter back in the pool -     *)
+(*               while the fence goes on evaluating on it: the fence never *)
+(*               sees its own ARGV again, and whoever takes the            *)
+(*               interpreter next (a script whose SET fires the fence)     *)
+(*               shows it ITS ARGV (HookSeesOwn, HookExclusive refuted)    *)
+(*   "owned"     the fence owns the interpreter until it is deleted        *)
+(* A fire step records what the fence's clause saw as ARGV: "own", "none"  *)
+(* or "other" (with the tag of the call whose ARGV it was).                *)
+(*                                                                         *)
 (* A behaviour is a sequence of commands on one connection; every step     *)
 (* records what the harness can observe on the real server: the reply      *)
 (* class, the number of idle interpreters, the number accounted for,       *)
@@ -36,17 +52,25 @@ EXTENDS Integers, Sequences, FiniteSets, TLC
 CONSTANTS Ini,           \* interpreters created at start-up (iniLuaPoolSize)
           Kinds,         \* step kinds a behaviour may contain
           MaxSteps,
-          OnParseError   \* "leak" | "once" | "perclause"
+          OnParseError,  \* "leak" | "once" | "perclause"
+          HookKeeps,     \* "shared" | "owned"
+          EarlyReturn    \* "clears" | "keeps": what a script command that ends before its script runs (EVALSHA of an
+                         \* unknown digest, a script that does not compile) does with the call's globals on the
+                         \* interpreter it puts back.  "keeps" is what the pinned tree did (the clean-up was registered
+                         \* after those returns): the next user of the interpreter reads the call's KEYS / ARGV
 
 VARIABLES pool,    \* sequence of interpreter ids (Get takes the last)
           total,   \* interpreters accounted for
           next,    \* next fresh id
           argv,    \* id -> tag of the call whose ARGV the interpreter's globals hold (0: none)
+          hook,    \* 0: no fence; else the id of the interpreter the fence's WHEREEVAL clause evaluates on
           hist
-vars == <<pool, total, next, argv, hist>>
+vars == <<pool, total, next, argv, hook, hist>>
 
-St(p, t, n, a) == [pool |-> p, total |-> t, next |-> n, argv |-> a]
-Cur == St(pool, total, next, argv)
+HookTag == 999   \* tag of the fence clause's own ARGV
+
+St(p, t, n, a, h) == [pool |-> p, total |-> t, next |-> n, argv |-> a, hook |-> h]
+Cur == St(pool, total, next, argv, hook)
 
 \* Get: [st, id]
 Get(s) == IF s.pool = <<>> THEN [st |-> [s EXCEPT !.total = @ + 1, !.next = @ + 1, !.argv = @ @@ (s.next :> 0)], id |-> s.next]
@@ -81,18 +105,48 @@ SearchSyn(s, tag) ==
     [] OnParseError = "once" -> CloseAll(t.st, t.ids)
     [] OTHER                 -> CloseClause(t.st, t.ids[1])
 
+\* what the fence's clause sees as ARGV when a SET fires it in state s: [sees, tag]
+Sees(s) == IF s.hook = 0 THEN [sees |-> "", tag |-> 0]
+           ELSE LET a == s.argv[s.hook] IN
+                IF a = HookTag THEN [sees |-> "own", tag |-> a]
+                ELSE IF a = 0 THEN [sees |-> "none", tag |-> 0] ELSE [sees |-> "other", tag |-> a]
+NoSees == [sees |-> "", tag |-> 0]
+
 \* a script: Get, its ARGV, the nested search (if any), what it sees of its ARGV afterwards, clear, Put
+\* (fire: its call is a SET into the fence - `saw` is what the fence's clause saw meanwhile)
 Script(s, n, bad, tag) ==
   LET g == Get(s)
       s1 == SetArgv(g.st, g.id, tag)
       s2 == IF n = 0 THEN s1 ELSE Search(s1, n, bad, tag + 1000)
-  IN [st |-> Put(SetArgv(s2, g.id, 0), g.id), kept |-> s2.argv[g.id] = tag]
+  IN [st |-> Put(SetArgv(s2, g.id, 0), g.id), kept |-> s2.argv[g.id] = tag, saw |-> Sees(s1)]
 
-\* [st, ok, kept]
+\* EVALSHA of an unknown digest / a script that does not compile: Get, the call's globals, return, Put
+ScriptEarly(s, tag) ==
+  LET g == Get(s)
+      s1 == SetArgv(g.st, g.id, tag)
+  IN Put(IF EarlyReturn = "clears" THEN SetArgv(s1, g.id, 0) ELSE s1, g.id)
+
+\* SETCHAN with one WHEREEVAL clause (the same command again when the fence exists: parsed, found equal, dropped)
+SetChan(s) ==
+  LET t == TakeClauses(s, 1, HookTag, <<>>) IN
+  IF s.hook # 0 THEN CloseAll(t.st, t.ids)
+  ELSE IF HookKeeps = "shared" THEN [CloseAll(t.st, t.ids) EXCEPT !.hook = t.ids[1]]
+       ELSE [t.st EXCEPT !.hook = t.ids[1]]
+DelChan(s) ==
+  IF s.hook = 0 THEN s
+  ELSE IF HookKeeps = "shared" THEN [s EXCEPT !.hook = 0]
+       ELSE [CloseClause(s, s.hook) EXCEPT !.hook = 0]
+
+\* [st, ok, kept, saw]
 Exec(s, kind, tag) ==
-  LET R(st, ok, kept) == [st |-> st, ok |-> ok, kept |-> kept]
+  LET R(st, ok, kept) == [st |-> st, ok |-> ok, kept |-> kept, saw |-> NoSees]
       sc(n, bad) == LET x == Script(s, n, bad, tag) IN R(x.st, ~bad, x.kept) IN
   CASE kind \in {"eval", "evalro", "evalna"} -> sc(0, FALSE)
+    [] kind \in {"evalshamiss", "evalsyntax"} -> R(ScriptEarly(s, tag), FALSE, TRUE)
+    [] kind = "setchan"        -> R(SetChan(s), TRUE, TRUE)
+    [] kind = "delchan"        -> R(DelChan(s), TRUE, TRUE)
+    [] kind = "fire"           -> [st |-> s, ok |-> TRUE, kept |-> TRUE, saw |-> Sees(s)]
+    [] kind = "evalfire"       -> LET x == Script(s, 0, FALSE, tag) IN [st |-> x.st, ok |-> TRUE, kept |-> x.kept, saw |-> x.saw]
     [] kind = "evalerr"        -> LET x == Script(s, 0, FALSE, tag) IN R(x.st, FALSE, TRUE)
     [] kind = "scan1"          -> R(Search(s, 1, FALSE, tag), TRUE, TRUE)
     [] kind = "scan2"          -> R(Search(s, 2, FALSE, tag), TRUE, TRUE)
@@ -114,20 +168,32 @@ Exec(s, kind, tag) ==
 
 Distinct(p) == \A i, j \in 1..Len(p) : i # j => p[i] # p[j]
 
-Init == /\ pool = [i \in 1..Ini |-> i] /\ total = Ini /\ next = Ini + 1
-        /\ argv = [i \in 1..Ini |-> 0] /\ hist = <<>>
+InitSt == St([i \in 1..Ini |-> i], Ini, Ini + 1, [i \in 1..Ini |-> 0], 0)
+Init == /\ pool = InitSt.pool /\ total = InitSt.total /\ next = InitSt.next
+        /\ argv = InitSt.argv /\ hook = InitSt.hook /\ hist = <<>>
+\* the pool accounting (idle, accounted for) after every step of a given sequence of kinds - evaluated as a constant
+\* expression for every pool discipline, so that a recorded run can be matched against each of them
+RECURSIVE RunCounts(_, _, _)
+RunCounts(s, ks, n) ==
+  IF ks = <<>> THEN <<>>
+  ELSE LET x == Exec(s, Head(ks), n) IN <<<<Len(x.st.pool), x.st.total>>>> \o RunCounts(x.st, Tail(ks), n + 1)
 Step(kind) ==
   /\ Len(hist) < MaxSteps
   /\ LET x == Exec(Cur, kind, Len(hist) + 1) IN
-     /\ pool' = x.st.pool /\ total' = x.st.total /\ next' = x.st.next /\ argv' = x.st.argv
+     /\ pool' = x.st.pool /\ total' = x.st.total /\ next' = x.st.next /\ argv' = x.st.argv /\ hook' = x.st.hook
      /\ hist' = Append(hist, [kind |-> kind, ok |-> x.ok, argvkept |-> x.kept, idle |-> Len(x.st.pool),
-                              total |-> x.st.total, distinct |-> Distinct(x.st.pool)])
+                              total |-> x.st.total, distinct |-> Distinct(x.st.pool),
+                              sees |-> x.saw.sees, seestag |-> x.saw.tag])
 Next == \E k \in Kinds : Step(k)
 Spec == Init /\ [][Next]_vars
-View == <<pool, total, next, argv>>
+View == <<pool, total, next, argv, hook>>
 
 \* ---- C18: the pool is sound, hence a call's ARGV is its own from its first to its last instruction
 PoolSound == Distinct(pool) /\ \A i \in 1..Len(pool) : pool[i] < next /\ argv[pool[i]] = 0
 ArgvKept  == \A i \in 1..Len(hist) : hist[i].argvkept
 Accounted == Len(pool) <= total
+\* ---- a fence's clause is a user of its interpreter like any other: nobody else has it, and it keeps the clause's ARGV
+HookExclusive == hook # 0 => /\ \A i \in 1..Len(pool) : pool[i] # hook
+                             /\ argv[hook] = HookTag
+HookSeesOwn   == \A i \in 1..Len(hist) : hist[i].sees \in {"", "own"}
 =============================================================================
